@@ -128,7 +128,7 @@ def run_history(seed, quick):
     viol = []
     stats = {'rounds': 0, 'conn_rounds': 0, 'idle_ok': 0, 'busy': 0, 'failed': 0, 'silent': 0, 'closed_underneath': 0, 'dead_found': 0,
              'capacity_checks': 0, 'return_calls_seen': 0, 'heartbeats_at_node': 0, 'control_rounds': 0, 'pool_rounds': 0, 'replaced_seen': 0,
-             'raced_close': 0, 'collateral': 0, 'owner_still_lists': 0}
+             'raced_close': 0, 'collateral': 0, 'owner_still_lists': 0, 'ambiguous': 0}
     ret_log = []         # (owner, conn, t)
 
     def wrap_owner(o):
@@ -148,7 +148,7 @@ def run_history(seed, quick):
         holders = []
         if mode == 'cluster':
             cluster = env.cluster(contact_points=addrs, protocol_version=proto, idle_heartbeat_interval=I, idle_heartbeat_timeout=T,
-                                  reconnection_policy=ConstantReconnectionPolicy(0.4 * I, max_attempts=None))
+                                  reconnection_policy=ConstantReconnectionPolicy(0.25 * I, max_attempts=None))
             if proto < 3:
                 cluster.set_core_connections_per_host(HostDistance.LOCAL, 2)
                 cluster.set_max_connections_per_host(HostDistance.LOCAL, 2)
@@ -173,6 +173,7 @@ def run_history(seed, quick):
         uid = [0]
         last_B_trace = {}        # conn id -> trace index from which deliveries count for the next round
         known_conns = set()
+        prev_window = None       # (A, B) of the previous round
 
         def deliveries(cid, lo, hi):
             return sum(1 for e in world.trace[lo:hi] if e[0] == 'deliver' and e[1] == cid)
@@ -207,8 +208,11 @@ def run_history(seed, quick):
                 cid = c.sim_id
                 alive = not (c.is_closed or c.is_defunct)
                 busy = deliveries(cid, last_B_trace.get(cid, 0), trace_A) > 0
+                # a connection born while the previous round was running may or may not have been seen (and reset) by that round
+                ambiguous = (cid not in last_B_trace and prev_window is not None and
+                             prev_window[0] - 1e-3 <= getattr(c, 'sim_created_at', -1.0) <= prev_window[1] + 1e-3)
                 tr = None
-                if alive and not busy:
+                if alive and not busy and not ambiguous:
                     tr = rng.choice(TREATMENTS)
                     if tr != 'ok':
                         if nfail >= (1 if mode == 'cluster' else 2):
@@ -220,7 +224,7 @@ def run_history(seed, quick):
                                         (lambda c=c, tr=tr: env.net.server_close(c, reset=(tr == 'reset-at-round'))), label='server-close')
                     else:
                         plan[cid] = tr
-                rows.append({'c': c, 'o': o, 'cid': cid, 'alive': alive, 'busy': busy, 'tr': tr, 'snap': snapshot(c) if alive else None,
+                rows.append({'c': c, 'o': o, 'cid': cid, 'alive': alive, 'busy': busy, 'tr': tr, 'ambiguous': ambiguous, 'snap': snapshot(c) if alive else None,
                              'control': bool(c.is_control_connection)})
                 known_conns.add(cid)
             # ---------------- the round
@@ -243,6 +247,9 @@ def run_history(seed, quick):
                         viol.append(('heartbeat-sent-on-dead-connection', '%s: %d OPTIONS on a closed/defunct connection' % (tag, n_opt)))
                     if nret == 0:
                         viol.append(('owner-not-told-about-dead-connection', '%s: closed/defunct connection listed by its owner, the heartbeat round did not call return_connection' % tag))
+                    continue
+                if r['ambiguous']:
+                    stats['ambiguous'] += 1
                     continue
                 if r['busy']:
                     stats['busy'] += 1
@@ -301,6 +308,7 @@ def run_history(seed, quick):
             if extra:
                 viol.append(('heartbeat-on-connection-outside-holders', 'OPTIONS heartbeats on connections %r that no holder listed before the round' % (sorted(set(h[0] for h in extra)),)))
             plan.clear()
+            prev_window = (A, B)
             trace_B = len(world.trace)
             for r in rows:
                 last_B_trace[r['cid']] = trace_B
@@ -383,7 +391,7 @@ def run(ctx):
     ctx.assume("traffic, silent connection deaths and replacements happen strictly between rounds; server closes that race the round are timed at the "
                "round's instant and may or may not be preceded by the heartbeat's OPTIONS (both accepted), a dead connection an owner still lists at the next round must be handed to return_connection then")
     n = ctx.scale(2500, 120000)
-    budget = 42 if ctx.quick else 400
+    budget = 38 if ctx.quick else 400
     import time
     t_run0 = time.time()          # the budget counts from here (imports done); at most 25 s of start-up slack on a loaded machine
     base = ctx.seed * 1000003 + (ctx.worker or 0) * 100003
@@ -414,7 +422,8 @@ def run(ctx):
                          ('capacity_checks', 'capacity_conservation_checks'), ('return_calls_seen', 'owner_return_connection_calls_seen'),
                          ('heartbeats_at_node', 'heartbeat_options_seen_at_node'), ('control_rounds', 'control_connection_rounds'),
                          ('replaced_seen', 'replacement_connections_seen'), ('collateral', 'connections_closed_by_owner_for_a_sibling_failure'),
-                         ('owner_still_lists', 'failed_connections_still_listed_by_notified_owner')):
+                         ('owner_still_lists', 'failed_connections_still_listed_by_notified_owner'),
+                         ('ambiguous', 'connections_born_during_a_round_not_judged')):
             ctx.count(name, st[k_])
         if harness and not viol:
             raise Inconclusive("harness error in history seed %d: %r" % (seed, harness[:2]))
